@@ -9,6 +9,7 @@ import MocModel.Drv.Codec
 import MocModel.Drv.Auth
 import MocModel.Drv.Gate
 import MocModel.Drv.Merge
+import MocModel.Drv.Router
 open Moc.Drv
 
 def handlers : List (String × Handler) := [
@@ -23,7 +24,8 @@ def handlers : List (String × Handler) := [
   ("codec", CodecD.handler),
   ("C01", AuthD.handler),
   ("ws", GateD.handler),
-  ("merge", MergeD.handler)
+  ("merge", MergeD.handler),
+  ("router", RouterD.handler)
 ]
 
 def main (args : List String) : IO UInt32 := do
